@@ -49,6 +49,40 @@ def main():
                                       "finite": bool(np.isfinite(np.asarray(res)).all()), "shape_ok": tuple(res.shape) == tuple(u.shape)}
             if req == "f32":
                 arrays[f"class/{cid}"] = np.asarray(res, dtype=np.float64)
+        # every intermediate value of the traced step (float64 request): dtypes of all equation outputs, sub-computations included
+        try:
+            u_top = jnp.asarray(u_np.astype(np.float64 if x64 else np.float32))
+            seen = set()
+
+            def walk(jpr):
+                for eqn in jpr.eqns:
+                    for ov in eqn.outvars:
+                        dt_ = getattr(getattr(ov, "aval", None), "dtype", None)
+                        if dt_ is not None:
+                            seen.add(str(dt_))
+                    for sub in eqn.params.values():
+                        for cand in (sub if isinstance(sub, (list, tuple)) else [sub]):
+                            inner = getattr(cand, "jaxpr", None)
+                            if inner is not None:
+                                walk(inner if hasattr(inner, "eqns") else inner.jaxpr)
+                            elif hasattr(cand, "eqns"):
+                                walk(cand)
+            walk(jax.make_jaxpr(st)(u_top).jaxpr)
+            rec["intermediate_dtypes"] = sorted(seen)
+        except Exception as e:  # noqa: BLE001
+            rec["intermediate_dtypes"] = None
+            out["errors"].append({"id": cid, "stage": "jaxpr", "exception": repr(e)[:300]})
+        # precision faithfulness of linear steppers: two half steps == one full step, to the session's own rounding
+        if order in (None, 0) and registry.takes_physical(type(st)):
+            try:
+                half = registry.make(name, D, N, L=2.0, dt=0.01, order=order, **case.get("kw", {}))
+                # Nyquist-free state: with Nyquist content and an odd-order symbol the intermediate irfft legitimately differs (C14's caveat)
+                u_nf = ex.ifft(ex.fft(u_top, num_spatial_dims=D) * ex.spectral.oddball_filter_mask(D, N), num_spatial_dims=D, num_points=N)
+                a = np.asarray(st(u_nf), dtype=np.float64)
+                b = np.asarray(half(half(u_nf)), dtype=np.float64)
+                rec["semigroup_rel"] = float(np.max(np.abs(a - b)) / (1.0 + np.max(np.abs(a))))
+            except Exception as e:  # noqa: BLE001
+                out["errors"].append({"id": cid, "stage": "semigroup", "exception": repr(e)[:300]})
         z = st(jnp.zeros((C,) + (N,) * D))
         rec["zero"] = {"finite": bool(np.isfinite(np.asarray(z)).all()), "maxabs": float(np.max(np.abs(np.asarray(z)))), "dtype": str(z.dtype)}
         out["dtype_cases"].append(rec)
